@@ -136,6 +136,8 @@ def check(m):
         if not is_input_kind(k):
             bad.add('position:output-type-in-input-position')
             return
+        if a.get('deprecation') is not None and a['type'][0] == 'nn' and a['default'] is None:
+            bad.add('deprecated:required-argument-or-input-field')
         if a['default'] is not None:
             try:
                 node = parse_const_value(a['default'])
